@@ -391,6 +391,12 @@ class Scope:
             return Ty("set", (ANY,))
         if isinstance(e, ast.Dict):
             return Ty("dict", (ANY, ANY))
+        if isinstance(e, ast.BoolOp):
+            # `a or b` / `a and b` evaluate to one of the operands: typed when all of them have the same type
+            tys = [self.ty(v) for v in e.values]
+            if tys and all(t is not None for t in tys) and all(t.head == tys[0].head for t in tys):
+                return tys[0]
+            return None
         if isinstance(e, ast.IfExp):
             return self.ty(e.body) or self.ty(e.orelse)
         if isinstance(e, ast.NamedExpr):
